@@ -34,6 +34,15 @@ def copy_replace(n, fn):
     return new
 
 
+class _SetAttr(ast.stmt):
+    """marker statement: a setattr(obj, name, value) call whose name is resolved on the path"""
+    _fields = ()
+
+    def __init__(self, orig):
+        super().__init__()
+        self.orig = orig
+
+
 class Path:
     def __init__(self, env, conds, ret=None, stores=None, end=None, calls=None):
         self.env = env          # name / dotted text -> AST
@@ -907,6 +916,11 @@ class SymExec:
                 ast.copy_location(x, st)
             ast.fix_missing_locations(loop)
             return [loop]
+        if isinstance(st, ast.Expr) and isinstance(st.value, ast.Call) and isinstance(st.value.func, ast.Name) and \
+           st.value.func.id == 'setattr' and len(st.value.args) == 3 and not st.value.keywords and \
+           not getattr(st, '_setattr_done', False):
+            # setattr(obj, <name known on this path>, v) is obj.<name> = v
+            return [_SetAttr(st)]
         counters = self._counter_names()
         if not counters or not isinstance(st, (ast.Assign, ast.AugAssign, ast.Expr, ast.Return, ast.AnnAssign)):
             return None
@@ -934,6 +948,19 @@ class SymExec:
         return [st2, inc]
 
     def _stmt(self, st, p):
+        if isinstance(st, _SetAttr):
+            obj, name, val = st.orig.value.args
+            nm = simplify(self.subst(name, p.env))
+            if isinstance(nm, ast.Constant) and isinstance(nm.value, str) and nm.value.isidentifier():
+                a = ast.Assign(targets=[ast.Attribute(value=obj, attr=nm.value, ctx=ast.Store())], value=val)
+                ast.copy_location(a, st.orig)
+                ast.fix_missing_locations(a)
+                return self._stmt(a, p)
+            st.orig._setattr_done = True
+            try:
+                return self._stmt(st.orig, p)
+            finally:
+                st.orig._setattr_done = False
         des_ = self._desugar_stateful(st)
         if des_ is not None:
             return self._block(des_, [p])
